@@ -36,7 +36,11 @@ type matrixSelector struct {
 	call     function.FunctionCall
 	scanners []matrixScanner
 	series   []labels.Labels
-	once     sync.Once
+	// dedup merges series which get the same label set because the function
+	// drops the metric name. Prometheus evaluates these functions series by
+	// series, so two such series fail the query whenever both have samples.
+	dedup *model.SeriesDeduplicator
+	once  sync.Once
 
 	vectorPool *model.VectorPool
 
@@ -170,6 +174,11 @@ func (o *matrixSelector) Next(ctx context.Context) ([]model.StepVector, error) {
 			seriesTs += o.step
 		}
 	}
+	for i := range vectors {
+		if err := o.dedup.Apply(vectors[i].SampleIDs); err != nil {
+			return nil, err
+		}
+	}
 	// For instant queries, set the step to a positive value
 	// so that the operator can terminate.
 	if o.step == 0 {
@@ -211,6 +220,7 @@ func (o *matrixSelector) loadSeries(ctx context.Context) error {
 			}
 			o.series[i] = lbls
 		}
+		o.dedup, o.series = model.NewSeriesDeduplicator(o.series, true)
 		o.vectorPool.SetStepSize(len(series))
 	})
 	return err
